@@ -40,6 +40,17 @@ def lossy_calls(ctx, fns, clause):
                 continue
             seen.add(id(c))
             n += 1
+            if repo.dotted(f, c.func) == "numpy.bincount":
+                w = kw(c, "weights") or (c.args[1] if len(c.args) > 1 else None)
+                if w is not None:
+                    from ..facts import facts_at
+                    wt = norm(w)
+                    isf = any(k_ == "T" and t_ == f"{wt}.is_float()" for k_, t_ in facts_at(f, c))
+                    ctx.ob("LOSSY-call", f, norm(c)[:90], c, isf,
+                           "the weights are floats already" if isf else
+                           f"np.bincount converts its weights to float64 before adding: integer weights above 2**53 are rounded, so the "
+                           f"group totals differ from an integer sum of the same values", clause=clause)
+                continue
             if repo.dotted(f, c.func) != "numpy.nan_to_num":
                 continue
             pos, neg = kw(c, "posinf"), kw(c, "neginf")
@@ -75,10 +86,19 @@ def memo_projection(ctx, module_names, clause, only=None):
                                                               and v.func.id in ("dict", "OrderedDict", "defaultdict") and not v.args):
                     tables.add(s.targets[0].id)
         n_tables += len(tables)
-        if not tables:
-            continue
+        module_tables_ = set(tables)
         for fn in [f for f in repo.functions.values() if f.module is mod]:
             if only is not None and not only(fn):
+                continue
+            # tables local to the function (a per-call memo) are judged the same way
+            tables = set(module_tables_)
+            for x_ in body_nodes(fn.node):
+                if isinstance(x_, ast.Assign) and len(x_.targets) == 1 and isinstance(x_.targets[0], ast.Name) and (
+                        (isinstance(x_.value, ast.Dict) and not x_.value.keys) or
+                        (isinstance(x_.value, ast.Call) and isinstance(x_.value.func, ast.Name) and x_.value.func.id == "dict"
+                         and not x_.value.args and not x_.value.keywords)):
+                    tables.add(x_.targets[0].id)
+            if not tables:
                 continue
             for node in body_nodes(fn.node):
                 key = val = None
@@ -101,6 +121,25 @@ def memo_projection(ctx, module_names, clause, only=None):
                            f"edit keeps the id, and a freed object's id is reused), so later calls are answered from stale data", clause=clause)
                     continue
                 if not proj:
+                    # an order- or multiplicity-blind summary of a container as the key: frozenset(X) / set(X) / len(X) / sorted(X)
+                    summ = [c for c in ast.walk(k) if isinstance(c, ast.Call) and isinstance(c.func, ast.Name)
+                            and c.func.id in ("frozenset", "set", "len", "sorted") and len(c.args) == 1
+                            and isinstance(c.args[0], (ast.Name, ast.Attribute))]
+                    if not summ:
+                        continue
+                    import re
+                    base = norm(summ[0].args[0])
+                    v = expand(fn, val, node)
+                    txt = norm(v)
+                    rest = txt
+                    for f_ in ("frozenset", "set", "len", "sorted"):
+                        rest = rest.replace(f"{f_}({base})", "")
+                    reads_more = re.search(r"(?<![\w.])" + re.escape(base) + r"(?![\w])", rest) is not None
+                    ctx.ob("MEMO-proj", fn, f"{norm(node)[:90]}", node, not reads_more,
+                           f"the stored value depends on {norm(summ[0])} only" if not reads_more else
+                           f"the memo is keyed by {norm(summ[0])}, which forgets the order (and for len the identity) of the elements of "
+                           f"{base}, but the stored value {txt[:60]} is computed from {base} in its own order: a later {base} with the same "
+                           f"summary and another order is answered with the first one's result", clause=clause)
                     continue
                 base = norm(proj[0].value.value)          # the object whose dtype is projected
                 ptxt = norm(proj[0])
@@ -312,3 +351,174 @@ def cross_column_promotion(ctx, roots, clause):
                    f"float64 (or uint64) one becomes float64, where integers beyond 2**53 that differ by one are equal -- rows with "
                    f"distinct key combinations are treated as duplicates", clause=clause)
     ctx.note(f"PROMO-stack: {n} calls in {len(fns)} functions reachable from the key-building methods scanned")
+
+
+NA_CLASSES = {"F", "C", "DT", "TD", "SF", "SV", "O"}      # element types that have a missing value
+
+
+def na_blind_paths(ctx, fns, clause, rule="NA-blind"):
+    """NA-blind: in a function that handles missing values (it calls is_na / isnan / isnat somewhere), an exit that can be
+    reached WITHOUT passing any such call is allowed only for element types that have no missing value.  Decided with
+    the dtype-class dataflow over the function's own is_*() / dtype.kind tests -- is_integer() is true for timedelta64,
+    which has NaT."""
+    from ..dtclass import analyse
+    from ..facts import cfg_node_of
+    ctx.rule(rule, "an exit that skips the missing-value handling of its function is reachable only for element types without a "
+                   "missing value (bool, integers, bytes) -- is_integer() / is_number() alone also admit timedelta64 (NaT)")
+    n = 0
+
+    def na_aware(a):
+        if a is None:
+            return False
+        for c in ast.walk(a):
+            if isinstance(c, ast.Call):
+                t = norm(c.func)
+                if t.endswith(".is_na") or t.endswith(".drop_na") or t.endswith(".replace_na") or t in (
+                        "np.isnan", "np.isnat", "numpy.isnan", "numpy.isnat", "handle_na", "np.nan_to_num", "numpy.nan_to_num",
+                        "np.nanmin", "np.nanmax", "np.nansum", "np.nanmean"):
+                    return True
+        return False
+    for fn in fns:
+        if not fn.params or fn.name in ("is_na", "na_value", "na_dtype"):
+            continue          # the detector itself and its tables are judged against the dtype table (SIB-9)
+        if any(d.endswith("classmethod") or d.endswith("staticmethod") for d in fn.decorators):
+            continue          # the first parameter is not a vector
+        var = fn.params[0]
+        body = [x for x in body_nodes(fn.node)]
+        if not any(na_aware(x) for x in body if isinstance(x, ast.stmt)):
+            continue
+        cfg, IN = analyse(fn, var, init=frozenset("B I U F C SF SV BY DT TD O".split()))
+        aware_nodes = {nd.id for nd in cfg.nodes if na_aware(nd.ast) and nd.kind in ("stmt", "test")}
+        # nodes reachable from the entry without passing an NA-aware node
+        seen = {cfg.entry.id}
+        stack = [cfg.entry]
+        while stack:
+            nd = stack.pop()
+            for s_, _ in nd.succ:
+                if s_.id in seen or s_.id in aware_nodes:
+                    continue
+                seen.add(s_.id)
+                stack.append(s_)
+        for nd in cfg.nodes:
+            if nd.kind != "stmt" or not isinstance(nd.ast, ast.Return) or nd.id not in seen or nd.id in aware_nodes:
+                continue
+            r = nd.ast
+            if r.value is None or (isinstance(r.value, ast.Constant)):
+                continue
+            if not any(isinstance(x, ast.Name) and x.id == var for x in ast.walk(r.value)):
+                continue
+            from ..facts import facts_at
+            empt = {f"{var}.length == 0", f"len({var}) == 0", f"not len({var})", f"{var}.size == 0", f"not {var}.length",
+                    f"{var}.length < 1", f"len({var}) < 1", f"not {var}.size"}
+            if any((k == "T" and t in empt) or (k == "F" and t in (f"{var}.length", f"len({var})", f"{var}.size", f"{var}.length > 0",
+                                                                    f"len({var}) > 0")) for k, t in facts_at(fn, r)):
+                continue          # nothing in an empty vector can be missing
+            n += 1
+            st = IN.get(nd.id)
+            # the parameter itself: its classes at entry are everything; IN holds them refined along the way
+            classes = set(st) if st else set("B I U F C SF SV BY DT TD O".split())
+            if classes >= set("B I U F C SF SV BY DT TD O".split()):
+                continue          # not chosen by an element-type test (an option such as drop_na=False decides): not this rule's business
+            bad = sorted(classes & NA_CLASSES)
+            ctx.ob(rule, fn, f"return {norm(r.value)[:60]} without looking for missing values", r, not bad,
+                   f"reached only for element types {sorted(classes)}, none of which has a missing value" if not bad else
+                   f"this exit skips the function's missing-value handling but can be reached for element types {bad} "
+                   f"(TD = timedelta64, which is_integer() / is_number() admit and which has NaT; F float, DT datetime, SF/SV string, "
+                   f"O object): their missing values are passed on as if they were ordinary values", clause=clause)
+    ctx.note(f"{rule}: {n} exit(s) that bypass missing-value handling examined")
+
+
+def value_casts(ctx, fns, clause, rule="CAST-safe"):
+    """CAST-safe: a dtype conversion applied to an input array on ONE of two twin paths must keep every value; judged by
+    the dtype-class dataflow (the classes that can reach the cast, refined by is_*() / np.issubdtype / dtype.kind tests)."""
+    from ..dtclass import operations, SAFE
+    ctx.rule(rule, "astype / as_* applied to an input on one twin path only is value-preserving for every element type that can "
+                   "reach it (uint64 -> int64 wraps at 2**63, integers -> float64 round above 2**53, timedelta64 -> int64 drops the unit)")
+    n = 0
+    for fn in fns:
+        for f in _all_fns([fn]):
+            for p in f.all_params:
+                casts = [c for _, c in calls_in(f, False) if isinstance(c.func, ast.Attribute) and isinstance(c.func.value, ast.Name)
+                         and c.func.value.id == p and (c.func.attr == "astype" or c.func.attr.startswith("as_"))]
+                if not casts:
+                    continue
+                for node, op, classes in operations(f, p, init=frozenset("B I U F C SF SV BY DT TD O".split())):
+                    if op not in ("as_integer", "as_float", "as_boolean", "as_string", "as_object"):
+                        continue
+                    n += 1
+                    bad = sorted(set(classes) - SAFE[op])
+                    ctx.ob(rule, f, norm(node)[:70], node, not bad,
+                           f"only element types {sorted(classes)} reach the conversion and it keeps their values" if not bad else
+                           f"{norm(node)[:50]} is applied on this path only and can be reached by element types {bad} (U unsigned: values from "
+                           f"2**63 wrap to negative; TD timedelta64: becomes a plain integer; F/I to a narrower type: rounded): the two "
+                           f"paths no longer see the same values", clause=clause)
+    ctx.note(f"{rule}: {n} conversion(s) on one-sided paths examined")
+
+
+def sorted_unique_ties(ctx, fns, clause, rule="ORD-ties"):
+    """ORD-ties: np.unique returns the distinct values SORTED.  Where ties are to be broken by first occurrence (mode),
+    choosing among np.unique's values without return_index= breaks them by value instead."""
+    ctx.rule(rule, "a function that breaks ties by first occurrence does not choose among np.unique(...) values unless the "
+                   "first-occurrence indices (return_index=True) are requested")
+    repo = ctx.repo
+    n = 0
+    for fn in fns:
+        for f, c in calls_in(fn):
+            if repo.dotted(f, c.func) != "numpy.unique":
+                continue
+            n += 1
+            ri = kw(c, "return_index")
+            ok = isinstance(ri, ast.Constant) and ri.value is True
+            ctx.ob(rule, f, norm(c)[:80], c, ok,
+                   "first-occurrence indices are requested" if ok else
+                   "np.unique sorts the distinct values; taking the most frequent of them picks the SMALLEST of several equally frequent "
+                   "values, not the one that occurs first (the compiled kernel and statistics.mode return the first)", clause=clause)
+    ctx.note(f"{rule}: {n} np.unique call(s) in tie-breaking functions examined")
+
+
+def bool_is_int(ctx, fns, clause, rule="TYPE-bool"):
+    """TYPE-bool: isinstance(x, int) is also true for True / False.  A branch that decides on an INTEGER dtype under such
+    a test (without excluding bool) turns boolean data into integers."""
+    ctx.rule(rule, "an integer dtype is never chosen under a bare isinstance(x, int) test: bool is a subclass of int")
+    n = 0
+
+    def int_tests(test):
+        out = []
+        for c in ast.walk(test):
+            if isinstance(c, ast.Call) and isinstance(c.func, ast.Name) and c.func.id == "isinstance" and len(c.args) == 2:
+                t = c.args[1]
+                names = [norm(e) for e in (t.elts if isinstance(t, ast.Tuple) else [t])]
+                if "int" in names and "bool" not in names:
+                    out.append(c)
+        return out
+
+    def excludes_bool(test):
+        t = norm(test)
+        return "bool" in t          # `not isinstance(x, bool)`, `type(x) is not bool`, ...
+
+    def picks_int(stmts):
+        for s in stmts:
+            for c in ast.walk(s):
+                if isinstance(c, ast.Call):
+                    args = [norm(a) for a in c.args] + [norm(k.value) for k in c.keywords]
+                    if any(a in ("int", "np.int64", "numpy.int64", "'int64'", '"int64"', "np.int_", "np.integer") for a in args):
+                        return c
+        return None
+    for fn in fns:
+        for f in _all_fns([fn]):
+            for node in body_nodes(f.node):
+                if not isinstance(node, ast.If):
+                    continue
+                its = int_tests(node.test)
+                if not its:
+                    continue
+                n += 1
+                if excludes_bool(node.test):
+                    continue
+                hit = picks_int(node.body)
+                if hit is None:
+                    continue
+                ctx.ob(rule, f, norm(node.test)[:80], node, False,
+                       f"under `{norm(node.test)[:60]}` the values are given an integer dtype ({norm(hit)[:50]}); True and False pass "
+                       f"isinstance(x, int) too, so a boolean column comes back as int64", clause=clause)
+    ctx.note(f"{rule}: {n} isinstance(..., int) test(s) examined")
